@@ -321,6 +321,16 @@ Proof.
   rewrite alloc_up_to_source. apply mul_same_need_le; auto.
 Qed.
 
+(** sqr::memory_requirement_exact is monotone (pow.rs reserves it for exp / 2 + 1 words and squares shorter buffers) *)
+Theorem sqr_memory_words_mono a b : 0 <= a <= b -> sqr_memory_words a <= sqr_memory_words b.
+Proof.
+  intros H. destruct source_scratch_thresholds as (A1 & A2 & A3). unfold sqr_memory_words.
+  pose proof (M_mono mul_threshold_simple mul_threshold_karatsuba A1 A2 a b H) as Mm.
+  pose proof (M_nonneg mul_threshold_simple mul_threshold_karatsuba A1 A2 b ltac:(lia)) as Mb.
+  rewrite !alloc_up_to_source.
+  destruct (Z.leb_spec a sqr_max_len_simple), (Z.leb_spec b sqr_max_len_simple); lia.
+Qed.
+
 (** the kernels as verif_hooks::mul_kernel allocates for them (which = 0 dispatch, 1 schoolbook, 2 Karatsuba,
     3 Toom-3; la >= lb and lb in the kernel's size class, as mul::add_signed_mul guarantees) *)
 Theorem kernel_scratch_sufficient which la lb : 0 <= lb <= la ->
